@@ -14,6 +14,8 @@ use std::io::Write;
 pub enum Case {
     Token { p: P, layer: Layer, default_parser: bool, key: KeyMat, token: String, footer: Option<String>, ia: Option<String>, class: String },
     KeyHex { n: usize, text: String, class: String },
+    /// ONE parser object that is re-configured between parses of authentic and hostile tokens
+    Session { p: P, batteries: bool, default_parser: bool, key: KeyMat, steps: Vec<PStep>, class: String },
 }
 
 fn dbg_variant<E: std::fmt::Debug>(e: &E) -> String {
@@ -106,6 +108,29 @@ pub fn run_case(c: &Case, r: &mut Report) {
             }
             if r.samples.len() < 8 && (r.evaluations % 97 == 1) {
                 r.sample(json!({"entry": tag, "class": class, "token": util::clip(token, 80), "outcome": out.brief()}));
+            }
+        }
+        Case::Session { p, batteries, default_parser, key, steps, class } => {
+            let cfg = ParserCfg { default_parser: *default_parser, ..Default::default() };
+            let outs = session(*p, *batteries, std::slice::from_ref(key), &cfg, steps);
+            let _ = session_logs_take();
+            let _ = vlog_take();
+            let tag = format!("{}/{}{}", p.name(), if *batteries { "batteries" } else { "generic" }, if *default_parser { "-default" } else { "" });
+            let mut panicked = false;
+            for (i, o) in outs.iter().enumerate() {
+                if let Out::Panic(loc) = o {
+                    panicked = true;
+                    let file_line = loc.split(" :: ").next().unwrap_or("?");
+                    r.violation(
+                        format!("C09 panic {} at {} [live parser session]", p.name(), file_line),
+                        format!("{} parser object re-configured between parses (class '{}', {} steps): parse #{} panicked: {}", tag, class, steps.len(), i + 1, loc),
+                        json!({"cmd": "C09", "case": c}),
+                    );
+                }
+            }
+            if !panicked {
+                r.count(&format!("{} live-parser session without panic", tag));
+                r.distinct(format!("{}|session|{}|{}", tag, class, outs.iter().map(|o| o.class()).collect::<Vec<_>>().join(",")));
             }
         }
         Case::KeyHex { n, text, class } => {
@@ -384,6 +409,55 @@ pub fn build_cases(tier: &str, seed: u64, pools: &Pools) -> Vec<Case> {
                 }
             }
         }
+        // (4c) ONE parser object, re-configured BETWEEN parses (expectations and validators added one at a time and in bulk, footer
+        //      and assertion changed) while authentic and hostile tokens are presented: state a parser derives lazily from its
+        //      configuration must survive every order of calls
+        {
+            let ia = if p.has_assertion() { Some("ia") } else { None };
+            let toks: Vec<String> = [
+                authentic(p, &key, &mut rng, "{\"role\":\"admin\",\"seats\":4,\"aud\":\"customers\",\"exp\":\"2999-01-01T00:00:00+00:00\"}", Some("ftr"), ia),
+                authentic(p, &key, &mut rng, "{\"role\":\"guest\",\"n\":[1,2,3]}", Some("ftr"), ia),
+                authentic(p, &key, &mut rng, "[1,2]", Some("ftr"), ia),
+                authentic(p, &key, &mut rng, "{}", None, None),
+            ]
+            .into_iter()
+            .flatten()
+            .chain([format!("{}AAAA", hdr), format!("{}AAAA.AAAA", hdr), String::new(), "a.b.c".to_string()])
+            .collect();
+            let nsess = if matches!(p, P::V1P | P::V3P) { if thorough { 60 } else { 8 } } else if thorough { 600 } else { 40 };
+            for s in 0..nsess {
+                let mut steps: Vec<PStep> = vec![PStep::SetFooter("ftr".into())];
+                if let Some(a) = ia {
+                    steps.push(PStep::SetAssertion(a.into()));
+                }
+                let claim = |rng: &mut Rng| -> Claim {
+                    match rng.below(6) {
+                        0 => Claim::Custom("role".into(), json!("admin")),
+                        1 => Claim::Custom("seats".into(), json!(4)),
+                        2 => Claim::Aud("customers".into()),
+                        3 => Claim::Custom("absent".into(), json!(null)),
+                        4 => Claim::Sub("nobody".into()),
+                        _ => Claim::Custom("n".into(), json!([1, 2, 3])),
+                    }
+                };
+                let n = 5 + rng.below(10);
+                for _ in 0..n {
+                    let st = match rng.below(10) {
+                        0 | 1 | 2 | 3 => PStep::Parse { token: toks[rng.below(toks.len())].clone(), key: 0 },
+                        4 => PStep::Check(claim(&mut rng)),
+                        5 => PStep::CheckMany((0..1 + rng.below(3)).map(|_| claim(&mut rng)).collect()),
+                        6 => PStep::Validate(VSpec { claim: claim(&mut rng), behave: VBehave::Accept, reg: if rng.chance(1, 2) { VReg::ExtendOnly } else { VReg::ValidateClaim }, second: false, odd: 0 }),
+                        7 => PStep::ValidateMany((0..1 + rng.below(3)).map(|_| VSpec { claim: claim(&mut rng), behave: VBehave::AcceptIfPresent, reg: if rng.chance(1, 2) { VReg::ExtendOnly } else { VReg::ValidateClaim }, second: false, odd: 0 }).collect()),
+                        8 => PStep::SetFooter(["ftr", "", "other"][rng.below(3)].into()),
+                        _ => PStep::SetAssertion(["ia", "", "other"][rng.below(3)].into()),
+                    };
+                    steps.push(st);
+                }
+                steps.push(PStep::Parse { token: toks[0].clone(), key: 0 });
+                let (batteries, dp) = [(false, false), (true, false), (true, true)][s % 3];
+                cases.push(Case::Session { p, batteries, default_parser: dp, key: key.clone(), steps, class: "live-parser-reconfigured".into() });
+            }
+        }
         // (5) generic hostile strings to this protocol's entry points
         let mut generic: Vec<String> = vec![
             "".into(), ".".into(), "..".into(), "...".into(), "....".into(), ".....".into(), "v".into(), "v4".into(), "v4.".into(), "v4.local".into(), "v4.local.".into(),
@@ -523,4 +597,4 @@ pub fn replay(case: &Value) -> Report {
     r
 }
 
-pub const RULE: &str = "cases = for each of the 8 protocols x 4 entry points (core, generic, batteries new(), batteries default()): the correct header followed by base64url of EVERY decoded length 0..=400 (thorough 0..=2000) with zero/random/authentic-prefix fill, every length up to 1100 (thorough 4200) with one fill, and the lengths within 4 of every power of two and of three times a power of two up to 96 KiB, with and without a matching footer segment; random larger payloads; every character prefix and several extensions of authentic tokens; multi-byte characters substituted and inserted at each of the first 14 positions (so that byte offsets near the header length are not character boundaries); invalid/padded/non-alphabet base64, incl. one foreign character ('=', '+', '/', '%', blank, NUL, multi-byte) substituted or inserted at every position of short payload / footer segments and at the ends and middle of longer ones; 0-6 segment strings of arbitrary Unicode; foreign and relabelled tokens; large inputs; expected footers/assertions of 64..70000 bytes with 3- and 4-segment input; AUTHENTIC tokens carrying hostile payloads (non-JSON, non-object, extreme/malformed exp/nbf/iat incl. the edges of year 0 and 9999 with offsets, leap seconds, huge numbers, nesting to depth 5000, 100 KB strings, 2000 members), each also through upper-layer parsers configured with check_claim / validate_claim / extend_validation_claims / extend_check_claims for present and absent keys; garbage public keys; and Key::<N>::try_from(&str) for N in {1,2,24,32,48,49,56,64} on hex strings of every length 0..=200 plus non-hex text. All with VALID key material so that parsing proceeds past key handling. Oracle: any Ok/Err is fine, a panic or process death is the violation. distinct_nontrivial = distinct (entry point, case class, outcome variant) tuples whose input got past the segment-count and header checks";
+pub const RULE: &str = "cases = for each of the 8 protocols x 4 entry points (core, generic, batteries new(), batteries default()): the correct header followed by base64url of EVERY decoded length 0..=400 (thorough 0..=2000) with zero/random/authentic-prefix fill, every length up to 1100 (thorough 4200) with one fill, and the lengths within 4 of every power of two and of three times a power of two up to 96 KiB, with and without a matching footer segment; random larger payloads; every character prefix and several extensions of authentic tokens; multi-byte characters substituted and inserted at each of the first 14 positions (so that byte offsets near the header length are not character boundaries); invalid/padded/non-alphabet base64, incl. one foreign character ('=', '+', '/', '%', blank, NUL, multi-byte) substituted or inserted at every position of short payload / footer segments and at the ends and middle of longer ones; 0-6 segment strings of arbitrary Unicode; foreign and relabelled tokens; large inputs; expected footers/assertions of 64..70000 bytes with 3- and 4-segment input; AUTHENTIC tokens carrying hostile payloads (non-JSON, non-object, extreme/malformed exp/nbf/iat incl. the edges of year 0 and 9999 with offsets, leap seconds, huge numbers, nesting to depth 5000, 100 KB strings, 2000 members), each also through upper-layer parsers configured with check_claim / validate_claim / extend_validation_claims / extend_check_claims for present and absent keys; garbage public keys; live-parser SESSIONS (one GenericParser / PasetoParser object re-configured between parses - expectations and validators one at a time and in bulk, footer and assertion changed - while authentic and hostile tokens are presented); and Key::<N>::try_from(&str) for N in {1,2,24,32,48,49,56,64} on hex strings of every length 0..=200 plus non-hex text. All with VALID key material so that parsing proceeds past key handling. Oracle: any Ok/Err is fine, a panic or process death is the violation. distinct_nontrivial = distinct (entry point, case class, outcome variant) tuples whose input got past the segment-count and header checks";
